@@ -301,6 +301,26 @@ func c10Wire(c *Ctx) {
 			}
 		}()
 		ok := sess.srv.WaitLines(2+n, 90*time.Second)
+		if ok && s == 0 {
+			// "held back EXACTLY when the penalty exceeds 10 s", "decays in real time": after the sustained burst the
+			// client is idle for 16 s - longer than any penalty the rule can have built up (`penalty_invariant`: what
+			// exceeds 10 s is covered by the last hold, at most one charge) - so the penalty is 0 again, and the next
+			// four short lines (charges of 2.2 s: 8.7 s in all) must go out at once
+			time.Sleep(16 * time.Second)
+			for k := 0; k < 4; k++ {
+				at := time.Now()
+				sess.conn.Raw(fmt.Sprintf("PRIVMSG #c :tail %d", k))
+				if !sess.srv.WaitLines(2+n+k+1, 30*time.Second) {
+					ok = false
+					break
+				}
+				if d := sess.srv.LineTimes()[2+n+k].Sub(at); d > 1500*time.Millisecond {
+					c.SpecFail("spec", desc, "", fmt.Sprintf("after the burst and 16 s of silence the penalty is 0; short line %d of 4 was still held for %.2fs", k+1, d.Seconds()),
+						map[string]interface{}{"op": "wire-burst", "lengths": lens, "idle_s": 16, "tail_line": k})
+					break
+				}
+			}
+		}
 		lines, times := sess.srv.Lines(), sess.srv.LineTimes()
 		sess.close()
 		c.Res.Traces++
